@@ -145,9 +145,15 @@ def wrap_solve(function, kind):
 
     @functools.wraps(function)
     def wrapper(self, *args, **kwargs):
+        try:
+            labels = [repr(x) for x in self.span] if len(self.span) <= 500 else None
+        except Exception:
+            labels = None
         emit('solve_enter', self, kind=kind, cls=type(self).__name__, L=len(self.span),
              start=repr(kwargs.get('start')), end=repr(kwargs.get('end')),
-             lags=int(getattr(self, 'lags', 0)), leads=int(getattr(self, 'leads', 0)))
+             lags=int(getattr(self, 'lags', 0)), leads=int(getattr(self, 'leads', 0)),
+             span=labels, span_type=type(self.span).__name__,
+             min=kwargs.get('min_iter', 0), max=kwargs.get('max_iter', 100), nargs=len(args))
         try:
             result = function(self, *args, **kwargs)
         except BaseException as e:
